@@ -9,6 +9,7 @@ import (
 	"github.com/pascaldekloe/mqtt"
 	"pgregory.net/rapid"
 	"verifh/sim"
+	"verifh/stats"
 )
 
 // C10 — the read routine never wedges: failed connections are left and redialed.
@@ -70,12 +71,22 @@ func TestC10NeverWedges(t *testing.T) {
 				h.releaseAcks(1) // PUBREC: the read routine answers with PUBREL and parks
 			}
 		}
+		failure := rapid.SampledFrom([]string{"foreign-publish-write-fails", "foreign-subscribe-write-fails", "foreign-ping-write-fails",
+			"foreign-persisted-write-fails", "read-reset", "read-eof", "mid-packet-stall", "own-write-fails"}).Draw(rt, "failure")
 		// requests which wait on this connection
+		pinged := false
 		for i := 0; i < rapid.IntRange(0, 2).Draw(rt, "waiting"); i++ {
 			switch rapid.IntRange(0, 2).Draw(rt, "req") {
 			case 0:
 				pending = append(pending, h.sub(1, 1))
 			case 1:
+				// one Ping at a time: two overlapping Pings of which one fails
+				// its write is the open finding F7 (excluded by construction)
+				if pinged || failure == "foreign-ping-write-fails" {
+					stats.For("C10").Exclude("F7")
+					continue
+				}
+				pinged = true
 				pending = append(pending, h.ping())
 			case 2:
 				pending = append(pending, h.unsub(1))
@@ -90,8 +101,6 @@ func TestC10NeverWedges(t *testing.T) {
 		}
 
 		// --- the failure ---
-		failure := rapid.SampledFrom([]string{"foreign-publish-write-fails", "foreign-subscribe-write-fails", "foreign-ping-write-fails",
-			"foreign-persisted-write-fails", "read-reset", "read-eof", "mid-packet-stall", "own-write-fails"}).Draw(rt, "failure")
 		h.Act("failure %s", failure)
 		c := h.Current()
 		foreign := false
@@ -186,6 +195,7 @@ func TestC10NeverWedges(t *testing.T) {
 						c.Break(false) // a held handshake never completes
 					}
 				}
+				h.PollQuiet(quiet, func() bool { return false })
 			}
 			started := h.App.Step()
 			h.MustPoll("ReadSlices returning or waiting for input (never wedged)", func() bool {
@@ -197,7 +207,11 @@ func TestC10NeverWedges(t *testing.T) {
 			if h.App.InCall() {
 				if h.ReaderWaiting() {
 					if cur := h.Current(); cur != nil && cur.State.Accepted && round >= 1 {
-						break // waits for input on a live, accepted connection
+						// waits for input on a live, accepted connection; make
+						// sure that is where things come to rest
+						if !h.PollQuiet(quiet, func() bool { return !h.ReaderWaiting() || h.Current() != cur }) {
+							break
+						}
 					}
 					// the connection it waits on is dead or stalls
 					continue
@@ -217,6 +231,8 @@ func TestC10NeverWedges(t *testing.T) {
 			// ReadBackoff contract
 			if useBackoff {
 				dials := h.DialCount()
+				connLoss := h.Current() == nil // the error left no live connection (L6)
+				start := time.Now()
 				ch := h.Client.ReadBackoff(last.Err)
 				switch {
 				case errors.Is(last.Err, mqtt.ErrClosed):
@@ -233,13 +249,11 @@ func TestC10NeverWedges(t *testing.T) {
 					if want > cfg.ReconnectWaitMax {
 						want = cfg.ReconnectWaitMax
 					}
-					connLoss := h.Current() == nil // the error left no live connection (L6)
 					if mqtt.IsConnectionRefused(last.Err) {
 						want = cfg.ReconnectWaitMax
 					} else if connLoss {
 						rw = want * 2
 					}
-					start := time.Now()
 					select {
 					case <-ch:
 					case <-time.After(want + 2*time.Second):
@@ -279,6 +293,11 @@ func TestC10NeverWedges(t *testing.T) {
 				h.App.Step()
 				h.MustPoll("ReadSlices returning or waiting for input", func() bool { return h.ReaderWaiting() || !h.App.InCall() })
 				h.ExpireStalledRead()
+			}
+			for _, c := range pending {
+				if c.Name == "ping" {
+					h.keepReadingUntil("the earlier Ping returning", func() bool { return h.IsDone(c) })
+				}
 			}
 			probe := h.Go("probe-ping", &Req{Kind: "ping"}, func() (<-chan error, error) { return nil, h.Client.Ping(nil) })
 			h.MustPoll("probe Ping returning", func() bool { return h.IsDone(probe) })
